@@ -191,7 +191,8 @@ Definition table_ok (G : gram) (tbl : table) (lbl : list (list sym)) : bool :=
 
 (** Label inference (untrusted helper: [table_ok] re-checks whatever it returns): propagate
     along shift and goto edges from state 0, keeping for every state the longest common
-    suffix of the strings reaching it. *)
+    suffix of the strings reaching it (4n+8 passes: labels only shrink, and by at most the
+    longest body per state in practice). *)
 
 Fixpoint common_suffix_rev (u v : list sym) : list sym :=
   match u, v with
@@ -233,7 +234,7 @@ Fixpoint iterate {A} (n : nat) (f : A -> A) (x : A) : A :=
 Definition infer_labels (nstates : nat) (tbl : table) : list (list sym) :=
   let init := Some [] :: repeat None (nstates - 1) in
   let es := edges tbl in
-  let fin := iterate (S nstates) (fun l => fold_left relax es l) init in
+  let fin := iterate (4 * nstates + 8) (fun l => fold_left relax es l) init in
   map (fun o => match o with Some l => l | None => [] end) fin.
 
 (** ** Termination certificate: for every lookahead and every pair of adjacent stack states
